@@ -31,17 +31,20 @@ import (
 func c18Loader(r *Run) {
 	for _, order := range [][]string{{"a", "b"}, {"b", "a"}} {
 		ctx, cancel := context.WithCancel(context.Background())
-		idps := map[string]*fakeIDP{"a": newFakeIDP(), "b": newFakeIDP()}
+		// both providers publish their documents on ONE host, under URLs that differ only after /.well-known/ (a policy or
+		// realm selector): whatever is remembered about discovery must be remembered per configuration URI
+		shared := newFakeIDP()
+		idps := map[string]*fakeIDP{"a": shared, "b": shared}
 		mrs := map[string]*miniredis.Miniredis{}
 		paths := map[string]string{}
-		for n, idp := range idps {
+		shared.setJWKS(jwksDoc(&c18Key(0).PublicKey, keys().kid))
+		for _, n := range []string{"a", "b"} {
 			mr, err := miniredis.Run()
 			must(err)
 			mrs[n] = mr
-			paths[n] = newDiscPath()
-			idp.setJWKS(jwksDoc(&c18Key(map[string]int{"a": 0, "b": 1}[n]).PublicKey, keys().kid))
-			idp.setDiscovery(paths[n], discAnswer{Kind: "doc", Doc: discDoc{Auth: "https://idp-" + n + ".example.com/authorize", Token: idp.srv.URL + "/token",
-				Jwks: idp.srv.URL + "/jwks", EndSession: "https://idp-" + n + ".example.com/end-session"}})
+			paths[n] = "/.well-known/openid-configuration/realms/" + n + fmt.Sprintf("-%d", time.Now().UnixNano())
+			shared.setDiscovery(paths[n], discAnswer{Kind: "doc", Doc: discDoc{Auth: "https://idp-" + n + ".example.com/authorize", Token: shared.srv.URL + "/token-" + n,
+				Jwks: shared.srv.URL + "/jwks", EndSession: "https://idp-" + n + ".example.com/end-session"}})
 		}
 		ov := func(n string) J {
 			return J{"oidc_override": J{"configuration_uri": idps[n].srv.URL + paths[n], "client_id": "client-" + n, "callback_uri": "https://app.example.com/" + n + "/callback",
@@ -134,8 +137,8 @@ func c18Loader(r *Run) {
 		r.Case("loader|" + strings.Join(order, ">"))
 		r.Dist["loader-two-overrides"]++
 		cancel()
-		for n := range idps {
-			idps[n].srv.Close()
+		shared.srv.Close()
+		for n := range mrs {
 			mrs[n].Close()
 		}
 	}
